@@ -7,7 +7,7 @@ in the mask index). Real arithmetic; eps is the dtype's machine epsilon, 0 < eps
 """
 import z3
 
-from vf.pyvc import api, ctensor as ct, interp as ip
+from vf.pyvc import api, ctensor as ct, interp as ip, solve
 from vf.pyvc.api import VC
 
 M = "pydrobert.torch._img"
@@ -57,7 +57,8 @@ def draw_vc(ntm, nfm, with_lengths):
         I.contracts["pydrobert.torch._img._spec_augment_check_input"] = lambda I2, a, k: None  # input validation: its own precondition below
         I.contracts["pydrobert.torch._img._get_tensor_eps"] = lambda I2, a, k: EPS
         lengths = ct.CT(ct.obj_array(L, (1,)), "long") if with_lengths else None
-        return I.call(IMG.spec_augment_draw_parameters, [Feats(), MTW, MFW, MTM, MFM, MTMP, ntm, NTMP, nfm], dict(lengths=lengths))
+        out = I.call(IMG.spec_augment_draw_parameters, [Feats(), MTW, MFW, MTM, MFM, MTMP, ntm, NTMP, nfm], dict(lengths=lengths))
+        return out
 
     Lr = z3.ToReal(L) if with_lengths else z3.ToReal(T)
 
@@ -87,15 +88,20 @@ def draw_vc(ntm, nfm, with_lengths):
             ncap = z3.ToInt(z3.If(Lr * NTMP > ntm, z3.RealVal(ntm), Lr * NTMP))
             for m, (wd, st) in enumerate(zip(te, t0e)):
                 wd, st = ip.to_z3(wd), ip.to_z3(st)
-                goals.append(("time_mask_%d" % m, z3.And(0 <= wd, wd <= cap, wd <= MTM, z3.ToReal(wd) <= Lr * MTMP,
-                                                          z3.Implies(m >= ncap, wd == 0), 0 <= st, z3.ToReal(st + wd) <= Lr)))
+                # one goal per conjunct: small nonlinear queries are decided fast and reproducibly, the conjunction was not
+                for lbl, g_ in (("width_nonneg", 0 <= wd), ("width_le_floor_of_both_caps", wd <= cap), ("width_le_abs_cap", wd <= MTM), ("floor_of_caps_le_proportion", z3.ToReal(cap) <= Lr * MTMP),
+                                # cut: with the two goals above proved, this one is linear
+                                ("width_le_proportion", z3.Implies(z3.And(wd <= cap, z3.ToReal(cap) <= Lr * MTMP), z3.ToReal(wd) <= Lr * MTMP)),
+                                ("zero_beyond_count_cap", z3.Implies(m >= ncap, wd == 0)), ("start_nonneg", 0 <= st), ("inside_valid_frames", z3.ToReal(st + wd) <= Lr)):
+                    goals.append(("time_mask_%d.%s" % (m, lbl), g_))
         else:
             goals.append(("time_masks_disabled_only_when_a_limit_is_zero", z3.Or(MTM == 0, MTMP == 0, z3.BoolVal(ntm == 0), NTMP == 0)))
         fe, f0e = elems(f), elems(f0)
         if fe:
             for m, (wd, st) in enumerate(zip(fe, f0e)):
                 wd, st = ip.to_z3(wd), ip.to_z3(st)
-                goals.append(("freq_mask_%d" % m, z3.And(0 <= wd, wd <= MFM, wd <= F, 0 <= st, st + wd <= F)))
+                for lbl, g_ in (("width_nonneg", 0 <= wd), ("width_le_abs_cap", wd <= MFM), ("width_le_F", wd <= F), ("start_nonneg", 0 <= st), ("inside", st + wd <= F)):
+                    goals.append(("freq_mask_%d.%s" % (m, lbl), g_))
         else:
             goals.append(("freq_masks_disabled_only_when_a_limit_is_zero", z3.Or(MFM == 0, z3.BoolVal(nfm == 0))))
         return goals if goals else True
@@ -107,7 +113,13 @@ def draw_vc(ntm, nfm, with_lengths):
                       "max_time_warp": MTW, "max_freq_warp": MFW, "eps": EPS},
               assumptions=["torch.rand yields values in [0, 1)", "float arithmetic treated as real arithmetic (the eps tricks exist for rounding; rounding itself is exercised by the bounded driver)",
                            "input validation (_spec_augment_check_input) assumed passed: 1 <= length <= T", "batch size 1 and a concrete number of masks per VC: the code is element-wise in both"],
+              lemmas=[("product_facts_are_valid", [], z3.And(solve.product_facts(PA, PB, PA * PB) + solve.shared_factor_facts(PA, PB, PC, PA * PB, PA * PC)), "raw"),
+                      ("product_facts_are_valid_over_the_integers", [], z3.And(solve.product_facts(IA, IB, IA * IB) + solve.shared_factor_facts(IA, IB, IC, IA * IB, IA * IC)), "raw")],
               timeout_ms=60000)
+
+
+PA, PB, PC = z3.Reals("lemma_x lemma_y lemma_z")
+IA, IB, IC = z3.Ints("lemma_i lemma_j lemma_k")
 
 
 def vcs(ctx):
